@@ -1,3 +1,4 @@
+import AquaVerif.Drv.CropCalendar
 import AquaVerif.Drv.Proto
 import AquaVerif.Drv.RainPartition
 import AquaVerif.Drv.RootZone
@@ -71,7 +72,9 @@ def handlers : List (String × Handler) := [
   ("clock", hClock),
   ("clock_calls", hClockCalls),
   ("calendar", hCalendar),
-  ("civil_range", hCivilRange)
+  ("civil_range", hCivilRange),
+  ("crop_calendar", hCropCalendar),
+  ("reset_calendar", hResetCalendar)
 ]
 
 def step (ctx : Ctx) (line : String) : Ctx × String :=
